@@ -82,6 +82,7 @@ Definition diag_eqb (a b : diag) : bool :=
   | DRestReturnType, DRestReturnType | DRestExtract, DRestExtract | DRestArrayReturn, DRestArrayReturn
   | DEnumNotExists, DEnumNotExists | DDupOutput, DDupOutput
   | DRestAmbiguousQuery, DRestAmbiguousQuery | DRestNeedsBody, DRestNeedsBody
+  | DRestUnnamedParam, DRestUnnamedParam | DRestPtrPathParam, DRestPtrPathParam
   | DMapSrcNotExists, DMapSrcNotExists | DMapDestNotExists, DMapDestNotExists | DMapPtrRecv, DMapPtrRecv
   | DMapWriteParam, DMapWriteParam | DMapDupWrite, DMapDupWrite | DMapReadParam, DMapReadParam
   | DMapDupRead, DMapDupRead
